@@ -18,6 +18,6 @@ SGSpec == SGInit /\ [][SGNext]_sgvars
 Complete == phase = "returned" /\ sent = Len(script)
 
 SEmit == ~Complete
-         \/ CSVWrite("%1$s", <<ToJson([n |-> n, outcome |-> outcome, adds |-> plan0, script |-> script, events |-> shist,
+         \/ CSVWrite("%1$s", <<ToJson([n |-> n, outcome |-> outcome, stype |-> stype, adds |-> plan0, script |-> script, events |-> shist,
                                          order |-> order, status |-> status])>>, "signal_vectors.ndjson")
 =============================================================================
